@@ -57,6 +57,9 @@ def text_use_precondition(model):
 
 
 def run(ctx, model):
+    from . import signatures as _sig
+    _n_sig = _sig.check(ctx, model, "R-SIGNATURE", lambda k: k.startswith('pregex.core.operators:') or k.split('.')[-1] in ('concat', 'either', 'enclose', '__add__', '__radd__'))
+    ctx.floor("R-SIGNATURE", _n_sig, 1, "public entry points")
     ctx.explanation = (
         "R-TABLE: the three conditional-group accessors are evaluated (abstract interpretation of the accessor, "
         "rule-lookup and group() bodies) for every operand type tag and must group at least what regex operator "
@@ -195,7 +198,11 @@ def run(ctx, model):
 
     # ---------------- R-DELEG
     n_deleg = _deleg(ctx, model, recvs, args)
+    n_deleg += B.same_object_twice(ctx, model, "R-DELEG", [("Alternation:'p|q'", "Alternation", "p|q", True), ("Group:'(p)'", "Group", "(p)", True)])
     ctx.floor("R-DELEG", n_deleg, 60, "spelling comparisons")
+    # ---------------- R-TYPED (what an object IS does not depend on the spelling that built it)
+    n_typed = _typed(ctx, model)
+    ctx.floor("R-TYPED", n_typed, 150, "spelling pairs compared as objects")
     # ---------------- R-COMPOSE (depth-2 composition with the real classifier)
     from . import compose
     recs = compose.run_all(ctx, model)
@@ -380,3 +387,78 @@ def _cmp_now(ctx, model, spelling, meth, func, form_a, form_b, inp, real=False):
                       func.node.lineno, inp=inp,
                       detail=f"{spelling}: {sorted(set(a.values()))[:4]}  method: {sorted(set(b.values()))[:4]}")
     return 1
+
+
+def _typed(ctx, model):
+    """R-TYPED: class form, method form and operator form of one expression yield objects with the same pattern text,
+    the same type tag and the same repeatable flag (the tag decides whether LATER operations wrap the pattern: a
+    spelling that mis-tags its result keeps the sub-pattern intact only until it is composed once more).  Nothing is
+    replaced: constructors, builders and the classifier are interpreted; the tag and the flag are read through the
+    probed instance layout."""
+    from ..absdom import slot_of
+    from . import quant as Q
+    P = model.pregex
+    OPS, GRP, CLSM, ASR = "pregex.core.operators", "pregex.core.groups", "pregex.core.classes", "pregex.core.assertions"
+    leaves = [
+        ("'a'", lambda it: it.construct(P, ["a"])),
+        ("'ab'", lambda it: it.construct(P, ["ab"])),
+        ("Either('ab','cd')", lambda it: it.construct(model.cls(OPS, "Either"), ["ab", "cd"])),
+        ("AnyDigit()", lambda it: it.construct(model.cls(CLSM, "AnyDigit"), [])),
+        ("Capture('ab')", lambda it: it.construct(model.cls(GRP, "Capture"), ["ab"])),
+        ("Optional('ab')", lambda it: it.construct(model.cls(Q.QU, "Optional"), ["ab"])),
+        ("MatchAtStart('a')", lambda it: it.construct(model.cls(ASR, "MatchAtStart"), ["a"])),
+        ("Pregex('')", lambda it: it.construct(P, [""])),
+    ]
+    forms = []      # (label, class name, module, method name, extra args)
+    for cname, meth in Q.CLASS_TO_METHOD.items():
+        np = len([p_ for p_ in model.cls(Q.QU, cname).find_method("__init__").params if p_ in ("n", "m")])
+        grids = {0: [()], 1: [(0,), (1,), (2,)] + ([(None,)] if cname == "AtMost" else []),
+                 2: [(0, 0), (0, 1), (1, 1), (0, None), (1, None), (2, 3), (2, 2)]}[np]
+        for ex in grids:
+            forms.append((f"{cname}(p{''.join(', ' + repr(x) for x in ex)})", cname, Q.QU, meth, list(ex)))
+            if cname in ("Optional", "AtLeastAtMost", "AtMost") and ex in ((), (0, 1), (1, 1), (1,)):
+                forms.append((f"{cname}(p{''.join(', ' + repr(x) for x in ex)}, is_greedy=False)", cname, Q.QU, meth, list(ex) + [False]))
+    for cname, (modname, meth, kind) in B.CLASS_FORMS.items():
+        for ex in {"fold": [("x",)], "fold2": [("x",)], "unary": [()], "unary+name": [(None,), ("nm",)], "unary+flag": [(False,), (True,)]}[kind]:
+            forms.append((f"{cname}(p{''.join(', ' + repr(x) for x in ex)})", cname, modname, meth, list(ex)))
+
+    def describe(o):
+        if o.kind == "raise":
+            return ("raise", o.exc.name)
+        t = slot_of(model, o.value, "type")
+        return ("object", o.text, getattr(t, "name", repr(t)), slot_of(model, o.value, "rep"))
+
+    def item(c2, job):
+        (llabel, mk), (flabel, cname, modname, meth, ex) = job
+        ci = model.cls(modname, cname)
+        mf = model.method(PRE, "Pregex", meth)
+        a = B.run_thunk(model, lambda it: it.construct(ci, [mk(it)] + list(ex)), real_classifier=True, fuel_factor=200)
+        b = B.run_thunk(model, lambda it: it.call(FuncRef(mf, mk(it), True), list(ex)), real_classifier=True, fuel_factor=200)
+        da, db = [describe(o) for o in a], [describe(o) for o in b]
+        inp = flabel.replace("(p", "(" + llabel, 1)
+        c2.instance("R-TYPED", key=inp, sample=f"{inp}: {da[:1]} = method {meth}: {db[:1]}")
+        if da != db:
+            f = ci.find_method("__init__")
+            c2.violation("R-TYPED", f.relpath, f"{cname}.__init__", f"{cname} vs Pregex.{meth}",
+                         "the class form yields an object that differs from what the method form yields on the same operand "
+                         "(pattern text, type tag or repeatable flag): later operations will group it differently",
+                         f.node.lineno, inp=inp, detail=f"class form: {da[:2]}  method form: {db[:2]}")
+        return 1
+    jobs = [(lf, fm) for lf in leaves for fm in forms]
+    if ctx.tier == "quick":
+        jobs = [j for i, j in enumerate(jobs) if j[0][0] in ("'ab'", "Either('ab','cd')", "MatchAtStart('a')") or i % 3 == 0]
+    n = sum(ctx.parallel(jobs, item))
+    # operator spellings of repetition
+    mul, rmul, exactly = (model.method(PRE, "Pregex", m_) for m_ in ("__mul__", "__rmul__", "exactly"))
+    for llabel, mk in leaves:
+        for k in (0, 1, 2):
+            ref = [describe(o) for o in B.run_thunk(model, lambda it: it.call(FuncRef(exactly, mk(it), True), [k]), real_classifier=True, fuel_factor=200)]
+            for f, lab in ((mul, f"{llabel} * {k}"), (rmul, f"{k} * {llabel}")):
+                got = [describe(o) for o in B.run_thunk(model, lambda it: it.call(FuncRef(f, mk(it), True), [k]), real_classifier=True, fuel_factor=200)]
+                ctx.instance("R-TYPED", key=lab, sample=f"{lab}: {got[:1]}")
+                n += 1
+                if got != ref:
+                    ctx.violation("R-TYPED", f.relpath, f.short, f"{f.node.name} vs Pregex.exactly",
+                                  "the operator form yields an object that differs from what exactly() yields", f.node.lineno, inp=lab,
+                                  detail=f"operator: {got[:2]}  exactly: {ref[:2]}")
+    return n
